@@ -86,7 +86,13 @@ func implParseStmt(args []string) string {
 	if longNumberLiteral(text) {
 		return "skip-float-precision"
 	}
-	stmt, err := newStmtParser(text, params).ParseStatement()
+	var stmt influxql.Statement
+	var err error
+	if len(params) == 0 && viaPackageEntry(text) {
+		stmt, err = influxql.ParseStatement(text)
+	} else {
+		stmt, err = newStmtParser(text, params).ParseStatement()
+	}
 	if err != nil {
 		return errLine(err)
 	}
@@ -101,7 +107,13 @@ func implParseQuery(args []string) string {
 	if longNumberLiteral(text) {
 		return "skip-float-precision"
 	}
-	q, err := newStmtParser(text, params).ParseQuery()
+	var q *influxql.Query
+	var err error
+	if len(params) == 0 && viaPackageEntry(text) {
+		q, err = influxql.ParseQuery(text)
+	} else {
+		q, err = newStmtParser(text, params).ParseQuery()
+	}
 	if err != nil {
 		return errLine(err)
 	}
